@@ -8,6 +8,19 @@ open Nomt.Wal (PageDiff)
 
 variable {Node VH : Type} [DecidableEq Node] [DecidableEq VH] (H : Hasher Node VH)
 
+/-- `count_leaves` reads the node slots only -/
+theorem countFrom_nodes (pg pg' : Page Node) (h : pg'.nodes = pg.nodes) :
+    ∀ rem idx, countFrom H pg' rem idx = countFrom H pg rem idx := by
+  intro rem
+  induction rem with
+  | zero => intro idx; rfl
+  | succ rem ih =>
+    intro idx
+    simp only [countFrom, h, ih]
+
+theorem countLeaves_nodes (pg pg' : Page Node) (h : pg'.nodes = pg.nodes) : countLeaves H pg' = countLeaves H pg := by
+  unfold countLeaves; rw [countFrom_nodes H pg pg' h, countFrom_nodes H pg pg' h]
+
 /-! ## `handle_elision_threshold` never fails on a well-formed stack -/
 
 theorem pushOut_ok (w : Walker Node) (sp : StackPage Node) (hrec : w.reconstruction = false) :
@@ -169,6 +182,136 @@ theorem handleElision_spec (w : Walker Node) (sp : StackPage Node) (below : List
         · obtain ⟨w', h1, h2, h3, h4, h5, ho, p', h6, h7, h8, h9, h10⟩ := hkeep
           exact ⟨w', h1, h2, h3, h4, h5, ho, Or.inr ⟨parent, rest, p', rfl, h6, h7, h8, h9, h10⟩⟩
 
+
+/-! ## the reconstructor (`new_reconstructor`): every page is handed out as reconstructed; nothing may be kept -/
+
+/-- the top page is small enough to be elided (what a reconstructor needs of every page it leaves: a kept page would wipe the
+parent's counters, and `push_reconstructed` of the parent would fail) -/
+def SmallTop (w : Walker Node) : Prop :=
+  ∀ sp parent rest, w.stack = sp :: parent :: rest → parentPageId sp.pageId ≠ [] →
+    countLeaves H sp.page + clOf sp < PAGE_ELISION_THRESHOLD
+
+theorem or_eq_clOf (x : StackPage Node) (h : x.prevChildrenLeaves = some 0) :
+    x.childrenLeaves.or x.prevChildrenLeaves = some (clOf x) := by
+  unfold clOf
+  rw [h]
+  cases x.childrenLeaves <;> rfl
+
+theorem pushReconstructed_zero (w : Walker Node) (sp : StackPage Node) (h : sp.prevChildrenLeaves = some 0) :
+    pushReconstructed w sp =
+      .ok { w with outputPages := w.outputPages ++ [.reconstructed sp.pageId sp.page (clOf sp) sp.totalDiff] } := by
+  unfold pushReconstructed clOf
+  rw [h]
+
+theorem pushOut_rec (w : Walker Node) (sp : StackPage Node) (hrec : w.reconstruction = true) :
+    pushOut w sp = pushReconstructed w sp := by
+  unfold pushOut; rw [if_pos hrec]
+
+theorem handleElision_spec_r (w : Walker Node) (sp : StackPage Node) (below : List (StackPage Node))
+    (hst : w.stack = sp :: below) (hrec : w.reconstruction = true) (hinh : w.inhibitElision = false)
+    (hz : ∀ x ∈ w.stack, x.prevChildrenLeaves = some 0 ∧ x.pageLeaves = some 0)
+    (hne : below ≠ [] → sp.pageId ≠ []) (hsmall : SmallTop H w) :
+    ∃ w' pg d, w.handleElision H = .ok w' ∧ Same w w' ∧ w'.position = w.position ∧ w'.root = w.root ∧
+      w'.childPageRoots = w.childPageRoots ∧ pg.nodes = sp.page.nodes ∧
+      (∀ i, sp.diff.changed i = true → d.changed i = true) ∧
+      w'.outputPages = w.outputPages ++ [.reconstructed sp.pageId pg (clOf sp) d] ∧
+      ((below = [] ∧ w'.stack = []) ∨
+       (∃ parent rest parent', below = parent :: rest ∧ w'.stack = parent' :: rest ∧
+          parent'.pageId = parent.pageId ∧ parent'.page = parent.page ∧ CountersOK parent' ∧
+          parent'.diff = parent.diff ∧ parent'.prevChildrenLeaves = parent.prevChildrenLeaves ∧
+          parent'.pageLeaves = parent.pageLeaves ∧ clOf parent' ≤ clOf parent + countLeaves H sp.page + clOf sp)) := by
+  obtain ⟨hid, hcl, hpcl, hpl⟩ := storeElided_fields sp
+  have hzsp := hz sp (by rw [hst]; simp)
+  have hz' : (storeElided sp).prevChildrenLeaves = some 0 := by rw [hpcl]; exact hzsp.1
+  have hclof : clOf (storeElided sp) = clOf sp := by unfold clOf; rw [hcl]
+  have hdiffs : ∀ i, sp.diff.changed i = true → (storeElided sp).totalDiff.changed i = true := by
+    intro i hi
+    exact totalDiff_changed _ i (by rw [storeElided_diff]; exact hi)
+  unfold Walker.handleElision
+  rw [hst]
+  simp only
+  cases below with
+  | nil =>
+    simp only
+    rw [pushOut_rec _ _ (by exact hrec), pushReconstructed_zero _ _ hz', hid, hclof]
+    exact ⟨_, (storeElided sp).page, _, rfl, ⟨rfl, rfl, rfl, rfl, rfl⟩, rfl, rfl, rfl, storeElided_nodes sp, hdiffs, rfl,
+      Or.inl ⟨trivial, rfl⟩⟩
+  | cons parent rest =>
+    simp only
+    have hzp := hz parent (by rw [hst]; simp)
+    have hcp : CountersOK parent := Or.inr hzp
+    have hspne : (storeElided sp).pageId ≠ [] := by rw [hid]; exact hne (by simp)
+    obtain ⟨ci, hci⟩ := childIndexAtLevel_last (storeElided sp).pageId hspne
+    by_cases hroot : parentPageId (storeElided sp).pageId = []
+    · rw [if_pos hroot]
+      rw [pushOut_rec _ _ (by exact hrec), pushReconstructed_zero _ _ hz', hid, hclof]
+      exact ⟨_, (storeElided sp).page, _, rfl, ⟨rfl, rfl, rfl, rfl, rfl⟩, rfl, rfl, rfl, storeElided_nodes sp, hdiffs, rfl,
+        Or.inr ⟨parent, rest, parent, rfl, rfl, rfl, rfl, hcp, rfl, rfl, rfl, by omega⟩⟩
+    · rw [if_neg hroot, or_eq_clOf _ hz', hclof]
+      simp only
+      have hsm := hsmall sp parent rest hst (by rw [← hid]; exact hroot)
+      rw [countLeaves_nodes H sp.page (storeElided sp).page (storeElided_nodes sp)]
+      rw [if_pos ⟨hsm, by rw [hinh]; simp⟩]
+      unfold elidePage elideParentCounter
+      rw [or_eq_clOf parent hzp.1]
+      simp only
+      rw [hpl, hzsp.2, hpcl, hzsp.1]
+      simp only [Option.getD_some]
+      rw [if_neg (by omega)]
+      simp only
+      rw [hci]
+      simp only
+      rw [if_pos (by exact hrec)]
+      rw [pushReconstructed_zero _ _ hz', hid, hclof]
+      refine ⟨_, (storeElided sp).page, _, rfl, ⟨rfl, rfl, rfl, rfl, rfl⟩, rfl, rfl, rfl, storeElided_nodes sp, hdiffs, rfl,
+        Or.inr ⟨parent, rest, _, rfl, rfl, rfl, rfl, Or.inr ⟨hzp.1, hzp.2⟩, rfl, rfl, rfl, ?_⟩⟩
+      show (some _ : Option Nat).getD 0 ≤ _
+      simp only [Option.getD_some]
+      omega
+
+/-- both modes: what `handle_elision_threshold` does to the walker, in the form the simulation needs -/
+theorem handleElision_sum (w : Walker Node) (sp : StackPage Node) (below : List (StackPage Node))
+    (hst : w.stack = sp :: below) (hc : ∀ x ∈ w.stack, CountersOK x) (hne : below ≠ [] → sp.pageId ≠ [])
+    (hrc : w.reconstruction = true → w.inhibitElision = false ∧
+      ∀ x ∈ w.stack, x.prevChildrenLeaves = some 0 ∧ x.pageLeaves = some 0)
+    (hsm : w.reconstruction = true → SmallTop H w) :
+    ∃ w', w.handleElision H = .ok w' ∧ Same w w' ∧ w'.position = w.position ∧ w'.root = w.root ∧
+      w'.childPageRoots = w.childPageRoots ∧
+      (∀ o ∈ w'.outputPages, o ∈ w.outputPages ∨
+        (o.pageId = sp.pageId ∧ o.page.nodes = sp.page.nodes ∧ o.isReconstructed = w.reconstruction ∧
+          ∀ i, sp.diff.changed i = true → o.diff.changed i = true)) ∧
+      ((below = [] ∧ w'.stack = []) ∨
+       (∃ parent rest parent', below = parent :: rest ∧ w'.stack = parent' :: rest ∧
+          parent'.pageId = parent.pageId ∧ parent'.page = parent.page ∧ CountersOK parent' ∧
+          parent'.diff = parent.diff ∧
+          (w.reconstruction = true → parent'.prevChildrenLeaves = parent.prevChildrenLeaves ∧
+            parent'.pageLeaves = parent.pageLeaves ∧ clOf parent' ≤ clOf parent + countLeaves H sp.page + clOf sp))) ∧
+      (w.reconstruction = true → ∃ o, w'.outputPages = w.outputPages ++ [o] ∧ o.pageId = sp.pageId ∧
+        o.page.nodes = sp.page.nodes) := by
+  cases hrec : w.reconstruction with
+  | false =>
+    obtain ⟨w', h1, h2, h3, h4, h5, ho, hs'⟩ := handleElision_spec H w sp below hst hrec hc hne
+    refine ⟨w', h1, h2, h3, h4, h5, ?_, ?_, fun h => by cases h⟩
+    · intro o ho'
+      rcases ho o ho' with h | ⟨pg, d, b, e1, e2, e3⟩
+      · exact Or.inl h
+      · right; rw [e2]; exact ⟨rfl, e1, rfl, e3⟩
+    · rcases hs' with h | ⟨parent, rest, parent', e1, e2, e3, e4, e5, e6⟩
+      · exact Or.inl h
+      · exact Or.inr ⟨parent, rest, parent', e1, e2, e3, e4, e5, e6, fun h => by cases h⟩
+  | true =>
+    obtain ⟨hinh, hz⟩ := hrc hrec
+    obtain ⟨w', pg, d, h1, h2, h3, h4, h5, hn, hd, ho, hs'⟩ := handleElision_spec_r H w sp below hst hrec hinh hz hne (hsm hrec)
+    refine ⟨w', h1, h2, h3, h4, h5, ?_, ?_, fun _ => ⟨_, ho, rfl, hn⟩⟩
+    · intro o ho'
+      rw [ho, List.mem_append, List.mem_singleton] at ho'
+      rcases ho' with h | h
+      · exact Or.inl h
+      · right; rw [h]; exact ⟨rfl, hn, rfl, hd⟩
+    · rcases hs' with h | ⟨parent, rest, parent', e1, e2, e3, e4, e5, e6, e7, e8, e9⟩
+      · exact Or.inl h
+      · exact Or.inr ⟨parent, rest, parent', e1, e2, e3, e4, e5, e6, fun _ => ⟨e7, e8, e9⟩⟩
+
 /-! ## pages of neighbouring positions -/
 
 theorem dip_snoc (x : Path) (b : Bool) : dip (x ++ [b]) = x.length % 6 + 1 := by
@@ -192,8 +335,9 @@ theorem specPage_first_layer_length (x : Path) (b : Bool) (h6 : x.length % 6 = 0
 section
 variable (ps : PageSet Node)
 
-/-- `up` -/
-theorem sim_up {w : Walker Node} {a : TW Node} (h : Sim H ps w a) (hd : 6 * k0 w.parentPage < a.pos.length) :
+/-- `up`.  A reconstructor must find the page it leaves small enough to be elided (`hsm`). -/
+theorem sim_up {w : Walker Node} {a : TW Node} (h : Sim H ps w a) (hd : 6 * k0 w.parentPage < a.pos.length)
+    (hsm : w.reconstruction = true → dip a.pos = 1 → SmallTop H w) :
     ∃ w', w.up H = .ok w' ∧ Sim H ps w' a.up ∧ Same w w' ∧ w'.childPageRoots = w.childPageRoots ∧ w'.root = w.root := by
   have hne := sim_pos_ne (w := w) hd
   obtain ⟨x, b, hxb⟩ : ∃ x b, a.pos = x ++ [b] := by
@@ -224,12 +368,14 @@ theorem sim_up {w : Walker Node} {a : TW Node} (h : Sim H ps w a) (hd : 6 * k0 w
     have hchain := h.chain
     rw [hst] at hchain
     simp only [List.map_cons] at hchain
-    obtain ⟨w1, hw1, hsame, hpos1, hroot1, hcpr1, houts1, hstack1⟩ := handleElision_spec H w top below hst h.norecon h.counters
-      (by
-        intro hb
-        cases below with
-        | nil => exact absurd rfl hb
-        | cons q r => exact hchain.1)
+    obtain ⟨w1, hw1, hsame, hpos1, hroot1, hcpr1, houts1, hstack1, hrec1⟩ :=
+      handleElision_sum H w top below hst h.counters
+        (by
+          intro hb
+          cases below with
+          | nil => exact absurd rfl hb
+          | cons q r => exact hchain.1)
+        h.recon.rc (fun hr => hsm hr h1)
     rw [hw1]
     simp only
     rw [hpos1, hup]
@@ -237,13 +383,64 @@ theorem sim_up {w : Walker Node} {a : TW Node} (h : Sim H ps w a) (hd : 6 * k0 w
     have htoplen := chain_top_length w.parentPage top.pageId (below.map (·.pageId)) hchain
     have hPl : 6 * top.pageId.length = x.length := by
       rw [htop, hxb]; exact specPage_first_layer_length x b h6
-    refine ⟨hp'wf, by rw [hp'a, hposup], by rw [hroot1, hstoreup]; exact h.root, ?_, ?_, ?_, ?_, ?_,
-      by show w1.reconstruction = false; rw [hsame.2.2.2.2]; exact h.norecon,
+    have hlogup : a.up.log = a.log ++ [(specPage a.pos, a.store)] := by
+      unfold TW.up; rw [if_pos h1]
+    have hrec' : w1.reconstruction = w.reconstruction := hsame.2.2.2.2
+    -- the mode invariant after the pop
+    have hrecon : ReconInv H ({ w1 with position := p' } : Walker Node) a.up := by
+      refine ⟨?_, ?_, ?_, ?_⟩
+      · intro o ho
+        show o.isReconstructed = w1.reconstruction
+        rw [hrec']
+        rcases houts1 o ho with hold | ⟨_, _, hk, _⟩
+        · exact h.recon.kinds o hold
+        · exact hk
+      · intro hr
+        have hr0 : w.reconstruction = true := by rw [← hrec']; exact hr
+        obtain ⟨hinh, hz⟩ := h.recon.rc hr0
+        refine ⟨by show w1.inhibitElision = false; rw [hsame.2.2.1]; exact hinh, ?_⟩
+        intro sp hsp
+        rcases hstack1 with ⟨_, hs⟩ | ⟨parent, rest, parent', hb, hs, _, _, _, _, hx⟩
+        · have hsp' : sp ∈ w1.stack := hsp
+          rw [hs] at hsp'; cases hsp'
+        · have hsp' : sp ∈ w1.stack := hsp
+          rw [hs] at hsp'
+          rcases List.mem_cons.mp hsp' with e | hsp''
+          · obtain ⟨e1, e2, _⟩ := hx hr0
+            rw [e, e1, e2]; exact hz parent (by rw [hst, hb]; simp)
+          · exact hz sp (by rw [hst, hb]; simp [hsp''])
+      · intro hr
+        have hr0 : w.reconstruction = true := by rw [← hrec']; exact hr
+        obtain ⟨o, ho, hoid, hon⟩ := hrec1 hr0
+        have hacc := h.recon.acct hr0
+        rw [hst] at hacc
+        simp only [List.map_cons, List.sum_cons] at hacc
+        show (w1.stack.map clOf).sum ≤ (w1.outputPages.map (outLeaves H)).sum
+        rw [ho]
+        simp only [List.map_append, List.map_cons, List.map_nil, List.sum_append, List.sum_cons, List.sum_nil]
+        have hol : outLeaves H o = countLeaves H top.page := by
+          unfold outLeaves; exact countLeaves_nodes H top.page o.page hon
+        rw [hol]
+        rcases hstack1 with ⟨hb, hs⟩ | ⟨parent, rest, parent', hb, hs, _, _, _, _, hx⟩
+        · rw [hs]; simp
+        · rw [hs]
+          obtain ⟨_, _, e3⟩ := hx hr0
+          rw [hb] at hacc
+          simp only [List.map_cons, List.sum_cons] at hacc ⊢
+          omega
+      · intro hr
+        have hr0 : w.reconstruction = true := by rw [← hrec']; exact hr
+        obtain ⟨o, ho, hoid, _⟩ := hrec1 hr0
+        show w1.outputPages.map PageOut.pageId = a.up.log.map (·.1)
+        rw [ho, hlogup]
+        simp only [List.map_append, List.map_cons, List.map_nil]
+        rw [h.recon.outIds hr0, hoid, htop]
+    refine ⟨hp'wf, by rw [hp'a, hposup], by rw [hroot1, hstoreup]; exact h.root, ?_, ?_, ?_, ?_, ?_, hrecon,
       by show w1.childPageRoots.map _ = _; rw [hcpr1, hcprup]; exact h.cpr, ?_,
       by show w1.preFix = false; rw [hsame.2.2.2.1]; exact h.nofix, ?_⟩
     · -- empty iff at the top layer
       rw [hsame.1, hposup, hxl]
-      rcases hstack1 with ⟨hb, hs⟩ | ⟨parent, rest, parent', hb, hs, _, _, _, _⟩
+      rcases hstack1 with ⟨hb, hs⟩ | ⟨parent, rest, parent', hb, hs, _⟩
       · rw [hs]
         simp only [true_iff]
         rw [hb] at htoplen; simp at htoplen
@@ -253,7 +450,7 @@ theorem sim_up {w : Walker Node} {a : TW Node} (h : Sim H ps w a) (hd : 6 * k0 w
         rw [hb] at htoplen; simp at htoplen
         omega
     · intro sp rest' e
-      rcases hstack1 with ⟨_, hs⟩ | ⟨parent, rest, parent', hb, hs, hpid, _, _, _⟩
+      rcases hstack1 with ⟨_, hs⟩ | ⟨parent, rest, parent', hb, hs, hpid, _⟩
       · rw [hs] at e; cases e
       · rw [hs] at e
         simp only [List.cons.injEq] at e
@@ -263,7 +460,7 @@ theorem sim_up {w : Walker Node} {a : TW Node} (h : Sim H ps w a) (hd : 6 * k0 w
         rw [hchain.2.1, htop, hxb]
         exact specPage_dropLast_first_layer x b h6
     · rw [hsame.1]
-      rcases hstack1 with ⟨_, hs⟩ | ⟨parent, rest, parent', hb, hs, hpid, _, _, _⟩
+      rcases hstack1 with ⟨_, hs⟩ | ⟨parent, rest, parent', hb, hs, hpid, _⟩
       · rw [hs]; trivial
       · rw [hs]
         have := chain_tail w.parentPage top.pageId (below.map (·.pageId)) hchain
@@ -271,7 +468,7 @@ theorem sim_up {w : Walker Node} {a : TW Node} (h : Sim H ps w a) (hd : 6 * k0 w
         simpa [hpid] using this
     · intro sp hsp
       rw [hstoreup]
-      rcases hstack1 with ⟨_, hs⟩ | ⟨parent, rest, parent', hb, hs, hpid, hpg, _, _⟩
+      rcases hstack1 with ⟨_, hs⟩ | ⟨parent, rest, parent', hb, hs, hpid, hpg, _⟩
       · rw [hs] at hsp; cases hsp
       · rw [hs] at hsp
         rcases List.mem_cons.mp hsp with e | hsp'
@@ -289,22 +486,20 @@ theorem sim_up {w : Walker Node} {a : TW Node} (h : Sim H ps w a) (hd : 6 * k0 w
         · exact h.counters sp (by rw [hst, hb]; simp [hsp'])
     · -- the outputs: the old ones, and the page just popped
       intro o ho
-      have hlogup : a.up.log = a.log ++ [(specPage a.pos, a.store)] := by
-        unfold TW.up; rw [if_pos h1]
-      rcases houts1 o ho with hold | ⟨pg, d, b', hpgn, ho', hdch⟩
-      · obtain ⟨P, pg, d, b', st, e1, e2, e3, e4, e5⟩ := h.outs o hold
-        exact ⟨P, pg, d, b', st, e1, by rw [hlogup]; exact List.mem_append_left _ e2, e3, e4, e5⟩
+      rcases houts1 o ho with hold | ⟨hoid, hpgn, _, hdch⟩
+      · obtain ⟨st, e2, e3, e4, e5⟩ := h.outs o hold
+        exact ⟨st, by rw [hlogup]; exact List.mem_append_left _ e2, e3, e4, e5⟩
       · obtain ⟨hl126, hm⟩ := h.pages top (by rw [hst]; simp)
         obtain ⟨base, hbase, hdn⟩ := h.diffs top (by rw [hst]; simp)
-        refine ⟨top.pageId, pg, d, b', a.store, ho', by rw [hlogup, htop]; simp, by rw [hpgn]; exact hl126, ?_,
-          base, hbase, ?_⟩
+        refine ⟨a.store, by rw [hlogup, hoid, htop]; simp, by rw [hpgn]; exact hl126, ?_, base,
+          by rw [hoid]; exact hbase, ?_⟩
         · intro q hq hql hqp
-          rw [hpgn]; exact hm q hq hql hqp
+          rw [hpgn]; exact hm q hq hql (by rw [hqp, hoid])
         · intro i hi hne
           rw [hpgn] at hne
           exact hdch i (hdn i hi hne)
     · intro sp hsp
-      rcases hstack1 with ⟨_, hs⟩ | ⟨parent, rest, parent', hb, hs, hpid, hpg, _, hpdf⟩
+      rcases hstack1 with ⟨_, hs⟩ | ⟨parent, rest, parent', hb, hs, hpid, hpg, _, hpdf, _⟩
       · rw [hs] at hsp; cases hsp
       · rw [hs] at hsp
         rcases List.mem_cons.mp hsp with e | hsp'
@@ -323,7 +518,7 @@ theorem sim_up {w : Walker Node} {a : TW Node} (h : Sim H ps w a) (hd : 6 * k0 w
     have hposup' : a.up.pos = x := by rw [hposup, hxl]
     have hlogup : a.up.log = a.log := by unfold TW.up; rw [if_neg h1]
     refine ⟨hp'wf, by rw [hp'a, hposup], by rw [hstoreup]; exact h.root, ?_, ?_, h.chain, ?_, h.counters,
-      h.norecon, by rw [hcprup]; exact h.cpr, by rw [hlogup]; exact h.outs, h.nofix, h.diffs⟩
+      h.recon.cast H rfl rfl rfl rfl hlogup, by rw [hcprup]; exact h.cpr, by rw [hlogup]; exact h.outs, h.nofix, h.diffs⟩
     · show w.stack = [] ↔ _
       rw [hst, hposup']
       simp only [false_iff, reduceCtorEq]
@@ -333,6 +528,30 @@ theorem sim_up {w : Walker Node} {a : TW Node} (h : Sim H ps w a) (hd : 6 * k0 w
       rw [hposup', h.stackT sp rest' e, hxb, specPage_snoc_inside x b h6]
     · intro sp hsp
       rw [hstoreup]; exact h.pages sp hsp
+
+/-- pushing a page with untouched `0 / 0` counters keeps the mode invariant -/
+theorem reconInv_push {w w' : Walker Node} {a a' : TW Node} (h : ReconInv H w a) (sp : StackPage Node)
+    (hz : sp.prevChildrenLeaves = some 0 ∧ sp.pageLeaves = some 0) (hc : sp.childrenLeaves = none)
+    (e1 : w'.outputPages = w.outputPages) (e2 : w'.reconstruction = w.reconstruction)
+    (e3 : w'.inhibitElision = w.inhibitElision) (e4 : w'.stack = sp :: w.stack) (e5 : a'.log = a.log) :
+    ReconInv H w' a' := by
+  refine ⟨?_, ?_, ?_, ?_⟩
+  · rw [e1, e2]; exact h.kinds
+  · rw [e2, e3, e4]
+    intro hr
+    obtain ⟨h1, h2⟩ := h.rc hr
+    refine ⟨h1, ?_⟩
+    intro x hx
+    rcases List.mem_cons.mp hx with e | hx'
+    · rw [e]; exact hz
+    · exact h2 x hx'
+  · rw [e1, e2, e4]
+    intro hr
+    have := h.acct hr
+    simp only [List.map_cons, List.sum_cons]
+    have e : clOf sp = 0 := by unfold clOf; rw [hc]; rfl
+    rw [e]; omega
+  · rw [e1, e2, e5]; exact h.outIds
 
 /-- a freshly pushed page matches the flat store after the havoc of its slots -/
 theorem fresh_page_matches (hfresh : ∀ P, (ps.fresh P).length = 126) (parent : Option PageId) (st : Store Node) (q0 : Path) :
@@ -381,7 +600,8 @@ theorem sim_downBit (hfresh : ∀ P, (ps.fresh P).length = 126) {w : Walker Node
         havoc a.store (cfgOf H ps w.parentPage).fresh (a.pos ++ [b]) := by
       unfold TW.downBit
       rw [if_pos ⟨by rw [hnil]; rfl, rfl⟩]
-    refine ⟨hp'wf, by rw [hp'a, hposd], ?_, ?_, ?_, ?_, ?_, ?_, h.norecon, by rw [hcprd]; exact h.cpr,
+    refine ⟨hp'wf, by rw [hp'a, hposd], ?_, ?_, ?_, ?_, ?_, ?_,
+      reconInv_push H h.recon _ ⟨rfl, rfl⟩ rfl rfl rfl rfl rfl (hlogd _), by rw [hcprd]; exact h.cpr,
       by rw [hlogd]; exact h.outs, h.nofix, ?_⟩
     · rw [hstore]; unfold havoc; rw [if_neg (by simp)]; exact h.root
     · show (_ :: w.stack) = [] ↔ _
@@ -437,7 +657,9 @@ theorem sim_downBit (hfresh : ∀ P, (ps.fresh P).length = 126) {w : Walker Node
           havoc a.store (cfgOf H ps w.parentPage).fresh (a.pos ++ [b]) := by
         unfold TW.downBit
         rw [if_pos ⟨h6, rfl⟩]
-      refine ⟨hp'wf, by rw [hp'a, hposd], ?_, ?_, ?_, ?_, ?_, ?_, h.norecon, by rw [hcprd]; exact h.cpr,
+      refine ⟨hp'wf, by rw [hp'a, hposd], ?_, ?_, ?_, ?_, ?_, ?_,
+        reconInv_push H h.recon (StackPage.new (P ++ [c]) (ps.freshPage (P ++ [c])) PageDiff.empty freshOrigin)
+          ⟨rfl, rfl⟩ rfl rfl rfl rfl (by rw [hst]) (hlogd _), by rw [hcprd]; exact h.cpr,
       by rw [hlogd]; exact h.outs, h.nofix, ?_⟩
       · rw [hstore]; unfold havoc; rw [if_neg (by simp)]; exact h.root
       · show (StackPage.new (P ++ [c]) (ps.freshPage (P ++ [c])) PageDiff.empty freshOrigin :: top :: rest) = [] ↔
@@ -499,7 +721,8 @@ theorem sim_downBit (hfresh : ∀ P, (ps.fresh P).length = 126) {w : Walker Node
       have hstore : (a.downBit (cfgOf H ps w.parentPage) true b).store = a.store := by
         unfold TW.downBit
         rw [if_neg (by intro hh; exact h6 hh.1)]
-      refine ⟨hp'wf, by rw [hp'a, hposd], by rw [hstore]; exact h.root, ?_, ?_, h.chain, ?_, h.counters, h.norecon,
+      refine ⟨hp'wf, by rw [hp'a, hposd], by rw [hstore]; exact h.root, ?_, ?_, h.chain, ?_, h.counters,
+        h.recon.cast H rfl rfl rfl rfl (hlogd _),
         by rw [hcprd]; exact h.cpr, by rw [hlogd]; exact h.outs, h.nofix, h.diffs⟩
       · show w.stack = [] ↔ _
         rw [hst, hposd]
